@@ -1150,19 +1150,15 @@ class PacketizerUView(SSView):
     """Packetizer with a header that is not a multiple of the beat.  The property is claimed in the producer domain
     of C16's `UOk` hypothesis (outside it the open C16 findings live): (1) a refused beat is offered again
     unchanged, (2) a producer that pauses *inside* a packet keeps its data/last/header lines, (3) no single-beat
-    packets.  env = (lines last driven, beat pending, inside a packet).  The padding bytes of a `last` beat show
-    whatever the sink lines carry (documented): they are masked out of the stability comparison.
+    packets.  env = (lines last driven, beat pending, inside a packet).  The whole source token is compared, also
+    the padding bytes of the flush (`last`) beat: since the fix of C04-packetizer-flush-padding-unstable they are 0
+    and no longer follow the idle sink lines (Lean: packetizer_stable_all).
     letter = (valid, data, last, header fields..., ready); outs = [sink.ready, source.valid, data, last]."""
     kind = "packetizer-unaligned"
     strict = True
 
     def __init__(self, alphabet, B, H, k_hs, k_del):
         SSView.__init__(self, alphabet, k_hs, k_del, last_idx=2)
-        self.padmask = (1 << (8 * (H % B))) - 1
-
-    def norm(self, tok):
-        data, last = tok[0], tok[1]
-        return (data & self.padmask if last else data, last)
 
     def env0(self):
         return (None, False, False)
